@@ -88,6 +88,25 @@ def uniformWidth {α : Type} (c : Nat) (rows : List (Row α)) : Bool := rows.all
 /-- third column -/
 def zColumn {α : Type} (rows : List (Row α)) : List α := rows.filterMap (fun r => r[2]?)
 
+/-- the attributes written once the plan is known: flattened coordinates (only the columns kept),
+the shared z value, the one-based index list for the variable-length types -/
+def finish {α : Type} (gt : String) (gd : GData α) (rows : List (Row α))
+    (plan : Int × Int × Int × Bool × Bool) : Except ErrKind (Enc α × Int) :=
+  match plan with
+  | (ct, dim, kept, hasZ, dbl) =>
+    if kept < 0 then .error .other else
+    let coords := (rows.map (fun r => r.take kept.toNat)).flatten
+    let cz := if hasZ then (zColumn rows).head? else none
+    if hasZ && cz.isNone then .error .other else
+    if indexListTypes.contains gt then
+      match mapE (fun (a : Annot α) => indexSpan dim (a.length : Int)) gd with
+      | .error e => .error e
+      | .ok spans =>
+        .ok ({ coords := coords, double := dbl, commonZ := cz, indexList := some (indexListFrom indexListBase spans),
+               numAnn := gd.length }, ct)
+    else
+      .ok ({ coords := coords, double := dbl, commonZ := cz, indexList := none, numAnn := gd.length }, ct)
+
 /-- `AnnotationGroup.__init__`, graphic data part.  `finite`: numpy's `isfinite` on a cell;
 `isDouble`: the concatenated array has dtype float64; `cast`: the documented cast applied to the
 cells (float32 for integer input, identity otherwise). -/
@@ -97,29 +116,16 @@ def encode {α : Type} [DecidableEq α] (gt : String) (finite : α → Bool) (is
   match mapE (fun a => pointCountCheck gt (a.length : Int) (firstEqLast a)) gd with
   | .error e => .error e
   | .ok _ =>
-    -- np.concatenate(graphic_data, axis=0)
-    match gd.flatten with
-    | [] => .error .value
-    | r0 :: rest =>
-      let rows := (r0 :: rest).map (fun r => r.map cast)
-      let ncols := r0.length
-      if !uniformWidth ncols rows then .error .value else
-      match encodePlan 2 (ncols : Int) (rows.all (fun r => r.all finite))
+    -- np.concatenate(graphic_data, axis=0), then the cast of integer input
+    let rows := gd.flatten.map (fun r => r.map cast)
+    match rows.head? with
+    | none => .error .value
+    | some r0 =>
+      if !uniformWidth r0.length rows then .error .value else
+      match encodePlan 2 (r0.length : Int) (rows.all (fun r => r.all finite))
           ((distinct (zColumn rows)).length : Int) isDouble with
       | .error e => .error e
-      | .ok (ct, dim, kept, hasZ, dbl) =>
-        if kept < 0 then .error .other else
-        let coords := (rows.map (fun r => r.take kept.toNat)).flatten
-        let cz := if hasZ then (zColumn rows).head? else none
-        if hasZ && cz.isNone then .error .other else
-        if indexListTypes.contains gt then
-          match mapE (fun (a : Annot α) => indexSpan dim (a.length : Int)) gd with
-          | .error e => .error e
-          | .ok spans =>
-            .ok ({ coords := coords, double := dbl, commonZ := cz, indexList := some (indexListFrom indexListBase spans),
-                   numAnn := gd.length }, ct)
-        else
-          .ok ({ coords := coords, double := dbl, commonZ := cz, indexList := none, numAnn := gd.length }, ct)
+      | .ok plan => finish gt gd rows plan
 
 /-- an annotation group as far as graphic data goes: stored attributes + the in-memory cache
 `_graphic_data` (coordinate type as 2/3 ↦ the arrays given to the constructor) -/
@@ -146,27 +152,35 @@ def cutsOf (stored : Int) (il : List Int) : Except ErrKind (List Nat) :=
   | .error e => .error e
   | .ok cs => mapE (fun (c : Int) => if c < 0 then .error .other else .ok c.toNat) (cs.drop splitDropFirst)
 
+/-- `frombuffer(...).reshape(-1, stored)` and, when CommonZCoordinateValue is present, the z column -/
+def storedRows {α : Type} (stored : Nat) (e : Enc α) : Except ErrKind (List (Row α)) :=
+  match reshapeRows stored e.coords with
+  | .error err => .error err
+  | .ok rows0 => .ok (match e.commonZ with
+    | some z => rows0.map (fun r => r ++ [z])
+    | none => rows0)
+
+/-- `np.split` of the point array into annotations -/
+def splitRows {α : Type} (gt : String) (e : Enc α) (ct stored : Int) (rows : List (Row α)) : Except ErrKind (GData α) :=
+  match decodePlan ct gt e.commonZ.isSome (rows.length : Int) with
+  | .error err => .error err
+  | .ok (_, mode, sections) =>
+    if mode = 0 then equalSplit sections rows
+    else match e.indexList with
+      | none => .error .attribute
+      | some il => match cutsOf stored il with
+        | .error err => .error err
+        | .ok cuts => .ok (splitCuts rows 0 cuts)
+
 /-- the parsed branch of `get_graphic_data` -/
 def decode {α : Type} (gt : String) (e : Enc α) (ct : Int) : Except ErrKind (GData α) :=
   match decodePlan ct gt e.commonZ.isSome 0 with
   | .error err => .error err
   | .ok (stored, _, _) =>
     if stored ≤ 0 then .error .other else
-    match reshapeRows stored.toNat e.coords with
+    match storedRows stored.toNat e with
     | .error err => .error err
-    | .ok rows0 =>
-      let rows := match e.commonZ with
-        | some z => rows0.map (fun r => r ++ [z])
-        | none => rows0
-      match decodePlan ct gt e.commonZ.isSome (rows.length : Int) with
-      | .error err => .error err
-      | .ok (_, mode, sections) =>
-        if mode = 0 then equalSplit sections rows
-        else match e.indexList with
-          | none => .error .attribute
-          | some il => match cutsOf stored il with
-            | .error err => .error err
-            | .ok cuts => .ok (splitCuts rows 0 cuts)
+    | .ok rows => splitRows gt e ct stored rows
 
 /-- `get_graphic_data(coordinate_type)` -/
 def getGraphicData {α : Type} (g : Group α) (ct : Int) : Except ErrKind (GData α) :=
@@ -197,16 +211,16 @@ structure MeasEnc (β : Type) where
   numberOfValues : Option Nat   -- `_number_of_values` (only on objects built by the constructor)
   deriving Repr, DecidableEq
 
-/-- positions (from `base`) of the entries that are present -/
-def presentIndices {β : Type} : Int → List (Option β) → List Int
+/-- zero-based positions of the entries that are present (`np.where(~is_nan)[0]`), counted from `i` -/
+def positions {β : Type} : Nat → List (Option β) → List Nat
   | _, [] => []
-  | i, none :: rest => presentIndices (i + 1) rest
-  | i, some _ :: rest => i :: presentIndices (i + 1) rest
+  | i, none :: rest => positions (i + 1) rest
+  | i, some _ :: rest => i :: positions (i + 1) rest
 
 /-- `Measurements.__init__`: `cast32` is the cast to float32 -/
 def encodeMeas {β : Type} (cast32 : β → β) (vals : List (Option β)) : MeasEnc β :=
   { values := (vals.filterMap id).map cast32,
-    indices := if vals.any Option.isNone then some (presentIndices measIndexBase vals) else none,
+    indices := if vals.any Option.isNone then some ((positions 0 vals).map (fun (i : Nat) => (i : Int) + measIndexBase)) else none,
     numberOfValues := some vals.length }
 
 /-- numpy `values[indices] = stored`: all indices are checked first (IndexError), negative ones wrap,
